@@ -17,3 +17,32 @@ pub open spec fn chain_wf(items: Seq<ChainItemV>, unit: int) -> bool {
 pub open spec fn chain_first_ok(items: Seq<ChainItemV>) -> bool {
     items.len() > 0 && (items[0] is Body || items[0] is Comment || items[0] is Op)
 }
+
+/// the invariant of `ChainStylist::process`: like chain_wf, except that the LAST item may still wait for its line break
+pub open spec fn chain_partial(items: Seq<ChainItemV>, unit: int) -> bool {
+    &&& forall|i: int| 0 <= i < items.len() ==> ci_ok(#[trigger] items[i], unit)
+    &&& forall|i: int| 0 <= i < items.len() - 1 && t_may_open(ci_doc(#[trigger] items[i])) ==> items[i + 1] is Linebreak
+}
+pub open spec fn chain_pending(items: Seq<ChainItemV>) -> bool { items.len() > 0 && t_may_open(ci_doc(items.last())) }
+pub proof fn lemma_chain_push(a: Seq<ChainItemV>, b: Seq<ChainItemV>, it: ChainItemV, unit: int)
+    requires b =~= a.push(it), chain_partial(a, unit), ci_ok(it, unit), chain_pending(a) ==> it is Linebreak,
+    ensures chain_partial(b, unit), chain_pending(b) == t_may_open(ci_doc(it)), a.len() > 0 ==> b[0] == a[0], b.len() == a.len() + 1,
+{
+    assert forall|i: int| 0 <= i < b.len() implies ci_ok(#[trigger] b[i], unit) by { if i < a.len() { assert(b[i] == a[i]); } }
+    assert forall|i: int| 0 <= i < b.len() - 1 && t_may_open(ci_doc(#[trigger] b[i])) implies b[i + 1] is Linebreak by {
+        assert(b[i] == a[i]);
+        if i < a.len() - 1 { assert(b[i + 1] == a[i + 1]); } else { assert(chain_pending(a)); }
+    }
+}
+pub proof fn lemma_chain_append_body(a: Seq<ChainItemV>, b: Seq<ChainItemV>, x: DocV, unit: int)
+    requires a.len() > 0, a.last() is Body, b =~= a.update(a.len() - 1, ChainItemV::Body(cat(ci_doc(a.last()), x))), chain_partial(a, unit), doc_closed(x, unit),
+    ensures chain_partial(b, unit), !chain_pending(b), b.len() == a.len(), a.len() > 1 ==> b[0] == a[0], b[0] is Body || b[0] == a[0],
+{
+    reveal_with_fuel(tr, 3); reveal_with_fuel(nest_ok, 3);
+    assert(ci_ok(a.last(), unit));
+    assert forall|i: int| 0 <= i < b.len() implies ci_ok(#[trigger] b[i], unit) by { if i < a.len() - 1 { assert(b[i] == a[i]); } }
+    assert forall|i: int| 0 <= i < b.len() - 1 && t_may_open(ci_doc(#[trigger] b[i])) implies b[i + 1] is Linebreak by {
+        assert(b[i] == a[i]);
+        if i < a.len() - 2 { assert(b[i + 1] == a[i + 1]); }
+    }
+}
